@@ -7,6 +7,7 @@ import (
 	"time"
 
 	"github.com/glowlabs-org/gca-backend/client"
+	"github.com/glowlabs-org/gca-backend/glow"
 
 	"verifharness/hx"
 )
@@ -263,6 +264,53 @@ func runRoundScenarios(c *ctx, t *hx.Trace, abs hx.Abs, newEnv func(string, map[
 			t.Emit(hx.J{"a": "DriverNote", "note": "rounds still in flight"})
 		}
 		t.Emit(hx.J{"a": "ClientClosing"})
+		closeEnv(r)
+	}
+
+	// ---- retransmissions go to the server the round synced with, also when another round picked a
+	// different primary server in between
+	nres := 5
+	if c.tier == "thorough" {
+		nres = 20
+	}
+	if !c.part("fault") && c.only != "resend" {
+		nres = 0
+	}
+	for i := 0; i < nres; i++ {
+		names := []string{"f1", "f2", "f3"}
+		r, err := newEnv(fmt.Sprintf("rounds/overlap-resend/%d", i), map[string]bool{"f1": false, "f2": false, "f3": false})
+		if err != nil {
+			return err
+		}
+		// the client holds readings; every server reports all of them as missing
+		G := glow.VerifGenesis()
+		var lines []string
+		for k := 0; k < 4; k++ {
+			lines = append(lines, fmt.Sprintf("%d,%d", G+int64(60+k)*300+5, 100+k))
+		}
+		r.cli.WriteEnergy(lines)
+		if !r.cli.Iterate() {
+			return fmt.Errorf("report loop did not complete an iteration")
+		}
+		r.latest = 63
+		for _, k := range names {
+			r.serve(k, "reply", r.build(k, replySpec{missing: true}))
+		}
+		r.mu.Lock()
+		r.parkAt = "r1"
+		r.mu.Unlock()
+		resA := r.roundAs("r1")
+		select {
+		case <-r.parked:
+		case <-time.After(10 * time.Second):
+			return fmt.Errorf("round r1 did not reach the yield point after its pick")
+		}
+		t.Emit(hx.J{"a": "DriverNote", "note": "r1 waits after its pick; r2 runs"})
+		<-r.roundAs("r2")
+		t.Emit(hx.J{"a": "DriverNote", "note": "r1 continues"})
+		r.unpark <- struct{}{}
+		<-resA
+		t.Emit(hx.J{"a": "LoopProbe", "ok": r.cli.Iterate()})
 		closeEnv(r)
 	}
 
